@@ -5,7 +5,7 @@
    treewidth <= gonality (van Dobben de Bruyn - Gijswijt), out of reach here: bounded only. The multipartite closed form is refuted (finding). *)
 From Coq Require Import ZArith List Bool Lia.
 Import ListNotations.
-From CF Require Import ZSum ListAux Defs Core Machines Config BoundsLink Generated PyLib Translated TranslatedLink.
+From CF Require Import ZSum ListAux Defs Core Machines Config BoundsLink Generated PyLib Translated TranslatedLink SmallGraphs.
 Open Scope Z_scope.
 
 (* complete graphs: is_gonality (n - 1), all n >= 2 *)
@@ -72,23 +72,27 @@ Print Assumptions C19_table_exact_entries.
 Definition simple4 : list graph := flat_map (fun a => flat_map (fun b => flat_map (fun c => flat_map (fun d => flat_map (fun e => map (fun f =>
   [[0;a;b;c];[a;0;d;e];[b;d;0;f];[c;e;f;0]]) [0;1]) [0;1]) [0;1]) [0;1]) [0;1]) [0;1].
 Definition simple3 : list graph := flat_map (fun a => flat_map (fun b => map (fun c => [[0;a;b];[a;0;c];[b;c;0]]) [0;1]) [0;1]) [0;1].
-(* all labelled simple graphs on n vertices: one bit per pair *)
-Definition simple_n (n : nat) : list graph :=
-  map (fun bs => tab n (fun v => tab n (fun w => if Nat.eqb v w then 0 else
-         let a := Nat.min v w in let b := Nat.max v w in nthZ bs (a * (2 * n - a - 1) / 2 + (b - a - 1))))) (all_seqs [0;1] (n * (n - 1) / 2)).
 Definition bramble_minus_1 (g : graph) : Z := if is_complete_simple g then Z.of_nat (nv g) - 1 else min_degree g.
 Theorem C19_min_degree_and_bramble_bounded : forallb (fun g => if connected_b g then
     match compute_gonality 300 g (nv g) false with Done (k, _) => (min_degree g <=? k) && (bramble_minus_1 g <=? k) && (k <=? Z.of_nat (nv g) - Z.of_nat (indep_number g)) | OutOfFuel => false end
   else true) (simple3 ++ simple4) = true.
 Proof. vm_compute. reflexivity. Qed.
 Print Assumptions C19_min_degree_and_bramble_bounded.
-(* the same three bounds on ALL 1024 labelled simple graphs on 5 vertices (728 connected ones), by kernel computation of every gonality *)
-Theorem C19_bounds_all_graphs_on_5_vertices_bounded : length (simple_n 5) = 1024%nat /\ forallb wfb (simple_n 5) = true /\
-  forallb (fun g => if connected_b g then
+(* the three theorem-backed bounds for EVERY connected simple graph on at most 5 vertices: Link/SmallGraphs.v shows that every well-formed simple graph
+   on n <= 5 vertices occurs in the enumeration simple_n n (one bit per vertex pair: 2, 8, 64, 1024 graphs for n = 2..5), and the kernel computes the gonality of each; the one-vertex graph is excluded:
+   the library reports only a trivial bound for it, and n - alpha = 0 is not an upper bound there *)
+Definition bounds_ok (g : graph) : bool := if connected_b g then
     match compute_gonality 300 g (nv g) false with Done (k, _) => (min_degree g <=? k) && (bramble_minus_1 g <=? k) && (k <=? Z.of_nat (nv g) - Z.of_nat (indep_number g)) | OutOfFuel => false end
-  else true) (simple_n 5) = true.
-Proof. split; [|split]; vm_compute; reflexivity. Qed.
-Print Assumptions C19_bounds_all_graphs_on_5_vertices_bounded.
+  else true.
+Lemma bounds_ok_all : forall n, (2 <= n <= 5)%nat -> forallb bounds_ok (simple_n n) = true.
+Proof. intros n H. destruct n as [|[|[|[|[|[|k]]]]]]; try lia; vm_compute; reflexivity. Qed.
+Theorem C19_bounds_every_simple_graph_up_to_5_vertices : forall g, wfb g = true -> simple g -> (2 <= nv g <= 5)%nat -> connected_b g = true ->
+  exists k S, compute_gonality 300 g (nv g) false = Done (k, S) /\ min_degree g <= k /\ bramble_minus_1 g <= k /\ k <= Z.of_nat (nv g) - Z.of_nat (indep_number g).
+Proof. intros g Hwf Hs Hn Hc. pose proof (small_graphs_complete g Hwf Hs ltac:(lia)) as Hin.
+  pose proof (bounds_ok_all (nv g) Hn) as H. rewrite forallb_forall in H. specialize (H g Hin). unfold bounds_ok in H. rewrite Hc in H.
+  destruct (compute_gonality 300 g (nv g) false) as [[k S]|]; [|discriminate]. exists k, S. split; [reflexivity|].
+  apply andb_true_iff in H. destruct H as [H H3]. apply andb_true_iff in H. destruct H as [H1 H2]. apply Z.leb_le in H1, H2, H3. auto. Qed.
+Print Assumptions C19_bounds_every_simple_graph_up_to_5_vertices.
 
 (* ---- recorded finding d7a: the multipartite closed form uses the smallest part ---- *)
 Theorem complete_multipartite_refuted : exists parts, multipartite_formula_as_implemented parts = 3 /\
